@@ -111,6 +111,50 @@ Module XmlHalf.
   Print Assumptions C07_xml_indent_equals_compact.
 End XmlHalf.
 
+(* ---- XML half, lifted to EVERY tree satisfying the property's hypotheses (appended by the XML generator development:
+        Proofs/EncXmlEol.v, Proofs/EncXmlC07e.v).  node_ok_e = the hypotheses and nothing more: names are XML names, text and
+        attribute values are XML characters (raw CR allowed everywhere), no duplicate attribute; every node kind the tree
+        builder makes (CDATA nodes, embedded documents, base64 content of binary-flagged elements); it does not depend on
+        the options (o_any). ------------------------------------------------------------------------------------------- *)
+From Wbxml Require Proofs.EncXmlEol Proofs.EncXmlC07e.
+Module XmlHalfFull.
+  Import Wbxml.Model.EncXml Wbxml.Model.XmlRead Wbxml.Proofs.EncXmlProofs Wbxml.Proofs.EncXmlIndent Wbxml.Proofs.EncXmlEol
+         Wbxml.Proofs.EncXmlC07e.
+
+  (* FULL.  Indented generation with ANY indent width (an arbitrary N, reduced mod 256 like the C's WB_UTINY) at any depth
+     (8-bit depth counter) and compact generation: both accepted by the reader, same DOCTYPE (the language's), root
+     elements equal modulo blank text between markup (nb).  With raw CR the reader's line-end normalisation is applied on
+     both sides before comparing (a text ending in CR followed by the line break of indented generation is one line end). *)
+  Theorem C07_xml_indent_equals_compact_full : forall l o_any indent indent' keep_ws nm attrs ch out_i out_c,
+    lang_ok l = true ->
+    node_ok_e l o_any proot None (Elt nm attrs ch) = true ->
+    enc_xml l Indent indent keep_ws [Elt nm attrs ch] = XOk out_i ->
+    enc_xml l Compact indent' keep_ws [Elt nm attrs ch] = XOk out_c ->
+    forall fuel, (node_fuel (Elt nm attrs ch) + 2 <= fuel)%nat ->
+      exists ri rc,
+        read_xml fuel out_i = ROk (doc_of l [ri]) /\ read_xml fuel out_c = ROk (doc_of l [rc]) /\ nb ri = nb rc.
+  Proof. exact c07_xml_indent_compact_e. Qed.
+  Print Assumptions C07_xml_indent_equals_compact_full.
+
+  (* FULL.  Canonical and compact generation (white space kept): both accepted, same DOCTYPE; the compact reading is the
+     canonical reading with XML's own normalisation applied (eol_rel): attribute values get attribute-value normalisation
+     (line ends, then literal TAB / LF / CR -> space); the content is the same sequence of pieces (child elements, pieces of
+     character data, CDATA payloads) delivered with line ends normalised per run of character data (fin false) instead of
+     exactly (fin true: canonical generation writes CR / LF / TAB as character references); child elements are related in
+     the same way.  When the tree has no raw CR and no TAB / LF / CR in attribute values this is equality
+     (C07_xml_compact_equals_canonical above). *)
+  Theorem C07_xml_compact_equals_canonical_mod_eol : forall l o_any i1 i2 nm attrs ch out_k out_c,
+    lang_ok l = true ->
+    node_ok_e l o_any proot None (Elt nm attrs ch) = true ->
+    enc_xml l Canonical i1 true [Elt nm attrs ch] = XOk out_k ->
+    enc_xml l Compact i2 true [Elt nm attrs ch] = XOk out_c ->
+    forall fuel, (node_fuel (Elt nm attrs ch) + 2 <= fuel)%nat ->
+      exists rk rc,
+        read_xml fuel out_k = ROk (doc_of l [rk]) /\ read_xml fuel out_c = ROk (doc_of l [rc]) /\ eol_rel rk rc.
+  Proof. exact c07_xml_compact_canonical_e. Qed.
+  Print Assumptions C07_xml_compact_equals_canonical_mod_eol.
+End XmlHalfFull.
+
 (* the hypotheses are satisfiable *)
 Example C07_example :
   exists body st, enc_body [] d7_lang (mk_opts 1 true false true) d7_tree = EOk (body, st) /\ forallb no_tree d7_tree = true.
